@@ -19,13 +19,16 @@ import (
 
 	cid "github.com/ipfs/go-cid"
 	libp2p "github.com/libp2p/go-libp2p"
+	"github.com/libp2p/go-libp2p-core/control"
 	crypto "github.com/libp2p/go-libp2p-core/crypto"
 	host "github.com/libp2p/go-libp2p-core/host"
+	"github.com/libp2p/go-libp2p-core/network"
 	peer "github.com/libp2p/go-libp2p-core/peer"
 	peerstore "github.com/libp2p/go-libp2p-core/peerstore"
 	rpc "github.com/libp2p/go-libp2p-gorpc"
 	dual "github.com/libp2p/go-libp2p-kad-dht/dual"
 	pubsub "github.com/libp2p/go-libp2p-pubsub"
+	ma "github.com/multiformats/go-multiaddr"
 	mh "github.com/multiformats/go-multihash"
 )
 
@@ -38,10 +41,12 @@ type vC07Op struct {
 }
 
 type vC07Case struct {
-	Kind string   `json:"kind"` // trust | deliver
+	Kind string   `json:"kind"` // trust | deliver | relay
 	Star bool     `json:"star"`
 	List []int    `json:"list"`
 	Hist []vC07Op `json:"hist"`
+	// relay (line A--B--C, A refuses connections with C): does the relay B trust the publisher C
+	RelayTrusts bool `json:"relay_trusts,omitempty"`
 }
 
 func (c *vC07Case) norm() {
@@ -63,7 +68,7 @@ func (c *vC07Case) norm() {
 	for i := range c.Hist {
 		c.Hist[i].Peer = clamp(c.Hist[i].Peer)
 	}
-	if c.Kind != "deliver" {
+	if c.Kind != "deliver" && c.Kind != "relay" {
 		c.Kind = "trust"
 	}
 }
@@ -107,11 +112,25 @@ type vC07Node struct {
 	d   *dual.DHT
 	cc  *Consensus
 	ids []peer.ID
+	// optional, set before start: real ids for some indices; heads rebroadcast interval (default 200ms)
+	known       map[int]peer.ID
+	rebroadcast string
 }
 
-func vC07NewHost() (*vC07Node, error) {
+// refuses every connection with one peer, in both directions
+type vC07Gater struct{ deny peer.ID }
+
+func (g *vC07Gater) InterceptPeerDial(p peer.ID) bool                 { return p != g.deny }
+func (g *vC07Gater) InterceptAddrDial(p peer.ID, _ ma.Multiaddr) bool { return p != g.deny }
+func (g *vC07Gater) InterceptAccept(network.ConnMultiaddrs) bool      { return true }
+func (g *vC07Gater) InterceptSecured(_ network.Direction, p peer.ID, _ network.ConnMultiaddrs) bool {
+	return p != g.deny
+}
+func (g *vC07Gater) InterceptUpgraded(network.Conn) (bool, control.DisconnectReason) { return true, 0 }
+
+func vC07NewHost(opts ...libp2p.Option) (*vC07Node, error) {
 	ctx := context.Background()
-	h, err := libp2p.New(ctx, libp2p.ListenAddrStrings("/ip4/127.0.0.1/tcp/0"))
+	h, err := libp2p.New(ctx, append([]libp2p.Option{libp2p.ListenAddrStrings("/ip4/127.0.0.1/tcp/0")}, opts...)...)
 	if err != nil {
 		return nil, err
 	}
@@ -133,6 +152,12 @@ func (n *vC07Node) start(star bool, list []int, peer1 peer.ID) error {
 	for i := 2; i < vC07NPeers; i++ {
 		n.ids = append(n.ids, vC07FakeID(i))
 	}
+	for i, id := range n.known {
+		n.ids[i] = id
+	}
+	if n.rebroadcast == "" {
+		n.rebroadcast = "200ms"
+	}
 	cfg := &Config{}
 	cfg.Default()
 	tp := []string{}
@@ -142,7 +167,7 @@ func (n *vC07Node) start(star bool, list []int, peer1 peer.ID) error {
 	if star {
 		tp = append(tp, "*")
 	}
-	raw, _ := json.Marshal(map[string]interface{}{"cluster_name": "vc07", "trusted_peers": tp, "rebroadcast_interval": "200ms"})
+	raw, _ := json.Marshal(map[string]interface{}{"cluster_name": "vc07", "trusted_peers": tp, "rebroadcast_interval": n.rebroadcast})
 	if err := cfg.LoadJSON(raw); err != nil {
 		return err
 	}
@@ -301,6 +326,100 @@ func vC07Deliver(c vC07Case, k int) (bool, error) {
 	return arrived, nil
 }
 
+// relay: a line A--B--C. A (trust state = configuration + history; index 1 = B, index 2 = C) refuses every connection
+// with C, so what C publishes can reach A only through B's forwarding. B trusts A, and C if RelayTrusts. B never
+// rebroadcasts heads by itself during the run (its own broadcasts are signed by B and would carry C's delta on:
+// that is the code's design and not what is observed here). Returns (arrived at A, arrived at B).
+func vC07Relay(c vC07Case, k int) (bool, bool, error) {
+	ctx := context.Background()
+	cn, err := vC07NewHost()
+	if err != nil {
+		return false, false, err
+	}
+	defer cn.close()
+	bn, err := vC07NewHost()
+	if err != nil {
+		return false, false, err
+	}
+	defer bn.close()
+	an, err := vC07NewHost(libp2p.ConnectionGater(&vC07Gater{deny: cn.h.ID()}))
+	if err != nil {
+		return false, false, err
+	}
+	defer an.close()
+	an.known = map[int]peer.ID{2: cn.h.ID()}
+	if err := an.start(c.Star, c.List, bn.h.ID()); err != nil {
+		return false, false, err
+	}
+	an.apply(c.Hist)
+	bn.known = map[int]peer.ID{2: cn.h.ID()}
+	bn.rebroadcast = "1h"
+	bl := []int{1}
+	if c.RelayTrusts {
+		bl = []int{1, 2}
+	}
+	if err := bn.start(false, bl, an.h.ID()); err != nil { // for B: index 1 = A, 2 = C
+		return false, false, err
+	}
+	if err := cn.start(true, nil, bn.h.ID()); err != nil {
+		return false, false, err
+	}
+	for _, pr := range [][2]*vC07Node{{an, bn}, {cn, bn}} {
+		pr[0].h.Peerstore().AddAddrs(pr[1].h.ID(), pr[1].h.Addrs(), peerstore.PermanentAddrTTL)
+		if _, err := pr[0].h.Network().DialPeer(ctx, pr[1].h.ID()); err != nil {
+			return false, false, err
+		}
+	}
+	apart := func() bool { return an.h.Network().Connectedness(cn.h.ID()) != network.Connected }
+	sees := func(a, b *vC07Node) bool {
+		for _, tp := range a.ps.GetTopics() {
+			for _, p := range a.ps.ListPeers(tp) {
+				if p == b.h.ID() {
+					return true
+				}
+			}
+		}
+		return false
+	}
+	if !vC07Wait(30*time.Second, func() bool { return sees(an, bn) && sees(bn, an) && sees(bn, cn) && sees(cn, bn) }) {
+		return false, false, fmt.Errorf("pubsub peers never saw each other on the topic")
+	}
+	time.Sleep(400 * time.Millisecond) // a few gossipsub heartbeats: the meshes B-A and B-C are grafted
+	// positive control first: a pin published by B reaches C, and A when A trusts B. B does not rebroadcast, so a
+	// publication lost while the links settle is repeated with a new pin (bounded).
+	aTrustsB := an.cc.IsTrustedPeer(ctx, bn.h.ID())
+	okCtl := false
+	for try := 0; try < 8 && !okCtl; try++ {
+		cb := vC07Cid(40*k + 1000 + try)
+		if err := bn.cc.LogPin(ctx, vC07Pin(cb)); err != nil {
+			return false, false, err
+		}
+		okCtl = vC07Wait(4*time.Second, func() bool { return vC07Has(cn.cc, cb) && (!aTrustsB || vC07Has(an.cc, cb)) })
+	}
+	if !okCtl {
+		return false, false, fmt.Errorf("control: B's pins never reached C (and A, which trusts B: %v)", aTrustsB)
+	}
+	// C publishes
+	cc1 := vC07Cid(40*k + 1039)
+	if err := cn.cc.LogPin(ctx, vC07Pin(cc1)); err != nil {
+		return false, false, err
+	}
+	atB := vC07Wait(map[bool]time.Duration{true: 60 * time.Second, false: 2500 * time.Millisecond}[c.RelayTrusts], func() bool { return vC07Has(bn.cc, cc1) })
+	expect := c.RelayTrusts && an.cc.IsTrustedPeer(ctx, cn.h.ID()) // only chooses how long to wait
+	wait := 3 * time.Second
+	if expect {
+		wait = 60 * time.Second
+	}
+	atA := vC07Wait(wait, func() bool { return vC07Has(an.cc, cc1) })
+	if c.RelayTrusts && !atB {
+		return false, false, fmt.Errorf("C's pin never reached the relay B although B trusts C")
+	}
+	if !apart() {
+		return false, false, fmt.Errorf("A and C got connected in spite of the gater")
+	}
+	return atA, atB, nil
+}
+
 func vC07Gen(seed uint64, n int) []vC07Case {
 	r := newVRand(seed)
 	var out []vC07Case
@@ -345,6 +464,23 @@ func vC07Gen(seed uint64, n int) []vC07Case {
 		vC07Case{Kind: "deliver", Star: true, List: []int{}, Hist: []vC07Op{{false, 1}}},
 		vC07Case{Kind: "deliver", List: []int{}, Hist: []vC07Op{{true, 1}, {false, 1}}},
 	)
+	// relay line A--B--C: A trusts only B (C's update must not get in through B); A trusts B and C (it does get in: the path works)
+	out = append(out,
+		vC07Case{Kind: "relay", List: []int{1}, RelayTrusts: true},
+		vC07Case{Kind: "relay", List: []int{1, 2}, RelayTrusts: true})
+	for k := 0; k < n/8; k++ {
+		c := vC07Case{Kind: "relay", Star: r.chance(10), List: []int{1}, RelayTrusts: !r.chance(25)}
+		if r.chance(40) {
+			c.List = append(c.List, 2)
+		}
+		if r.chance(30) {
+			c.List = append(c.List, 3)
+		}
+		for i, m := 0, r.rng(0, 3); i < m; i++ {
+			c.Hist = append(c.Hist, vC07Op{Trust: r.chance(50), Peer: r.rng(2, 3)}) // B stays trusted: it is the positive control
+		}
+		out = append(out, c)
+	}
 	for k := 0; k < n/4; k++ {
 		c := vC07Case{Kind: "deliver", Star: r.chance(10), List: []int{}}
 		for p := 0; p < 4; p++ {
@@ -401,6 +537,7 @@ func TestVerifCrdtC07(t *testing.T) {
 	// deliveries run concurrently (each has its own two hosts); results are emitted in case order
 	type dres struct {
 		arrived bool
+		atRelay bool
 		err     error
 	}
 	dr := make([]dres, len(cases))
@@ -408,7 +545,7 @@ func TestVerifCrdtC07(t *testing.T) {
 	sem := make(chan struct{}, 4)
 	for i := range cases {
 		cases[i].norm()
-		if cases[i].Kind != "deliver" {
+		if cases[i].Kind != "deliver" && cases[i].Kind != "relay" {
 			continue
 		}
 		wg.Add(1)
@@ -416,8 +553,13 @@ func TestVerifCrdtC07(t *testing.T) {
 			defer wg.Done()
 			sem <- struct{}{}
 			defer func() { <-sem }()
+			if cases[i].Kind == "relay" {
+				a, b, err := vC07Relay(cases[i], i)
+				dr[i] = dres{a, b, err}
+				return
+			}
 			a, err := vC07Deliver(cases[i], i)
-			dr[i] = dres{a, err}
+			dr[i] = dres{a, true, err}
 		}(i)
 	}
 	var node *vC07Node
@@ -466,8 +608,15 @@ func TestVerifCrdtC07(t *testing.T) {
 				t.Fatalf("deliver case %d: infrastructure: %v", i, dr[i].err)
 			}
 			out.count(fmt.Sprintf("deliver/arrived=%v", dr[i].arrived))
-			out.add(fmt.Sprintf("CDeliver %s %s %s 1 %s", cqBool(c.Star), cqListN(c.List), vC07CoqHist(c.Hist), cqBool(dr[i].arrived)),
-				c, dr[i].arrived, true)
+			out.add(fmt.Sprintf("CDeliver %s %s %s 1 1 true %s", cqBool(c.Star), cqListN(c.List), vC07CoqHist(c.Hist), cqBool(dr[i].arrived)),
+				c, map[string]interface{}{"signer": 1, "forwarder": 1, "arrived": dr[i].arrived}, true)
+		case "relay":
+			if dr[i].err != nil {
+				t.Fatalf("relay case %d: infrastructure: %v", i, dr[i].err)
+			}
+			out.count(fmt.Sprintf("relay/relay_trusts=%v/arrived=%v", c.RelayTrusts, dr[i].arrived))
+			out.add(fmt.Sprintf("CDeliver %s %s %s 2 1 %s %s", cqBool(c.Star), cqListN(c.List), vC07CoqHist(c.Hist), cqBool(c.RelayTrusts), cqBool(dr[i].arrived)),
+				c, map[string]interface{}{"signer": 2, "forwarder": 1, "relay_accepted": dr[i].atRelay, "arrived": dr[i].arrived}, true)
 		}
 	}
 }
